@@ -967,10 +967,12 @@ struct GibbsCase
   std::vector<Struc> strucs;
   std::vector<double> lo, up; // TEST = unbounded side
   int nbsimu = 1, nburn = 3, niter = 10, moving = 0, multiMono = 0, norm = 1, seed = 1, seed2 = 2;
+  std::vector<int> sel; // empty, or one flag per sample (0 = masked by the selection)
+  bool active(int i) const { return sel.empty() || sel[(size_t)i] != 0; }
   template<class A> void io(A& a)
   {
     a("ndim", ndim)("pts", pts)("strucs", strucs)("lo", lo)("up", up)("nbsimu", nbsimu)("nburn", nburn)("niter", niter);
-    a("moving", moving)("multiMono", multiMono)("norm", norm)("seed", seed)("seed2", seed2);
+    a("moving", moving)("multiMono", multiMono)("norm", norm)("seed", seed)("seed2", seed2)("sel", sel);
   }
 };
 static GibbsCase genGibbs()
@@ -1020,6 +1022,14 @@ static GibbsCase genGibbs()
   c.norm = G::pct(70) ? 1 : 0;
   c.seed = G::seed();
   c.seed2 = G::seed(); if (c.seed2 == c.seed) c.seed2 = c.seed % 20000158 + 1;
+  if (n >= 2 && G::pct(35))
+  {
+    // a selection on the conditioning Db: masked samples (also before active ones) carry bounds of their own,
+    // which must never be used for another sample
+    c.sel.assign((size_t)n, 1);
+    for (int i = 0; i < n; i++) c.sel[(size_t)i] = G::pct(70) ? 1 : 0;
+    c.sel[(size_t)G::i(0, n - 1)] = 1;
+  }
   return c;
 }
 static int callGibbs(const GibbsCase& c, int seed, Cols& out)
@@ -1034,6 +1044,12 @@ static int callGibbs(const GibbsCase& c, int seed, Cols& out)
   }
   db->addColumns(toVD(c.lo), "L", ELoc::L, 0);
   db->addColumns(toVD(c.up), "U", ELoc::U, 0);
+  if (!c.sel.empty())
+  {
+    VectorDouble sv((size_t)n);
+    for (int i = 0; i < n; i++) sv[(size_t)i] = c.sel[(size_t)i] ? 1. : 0.;
+    db->addColumns(sv, "sel", ELoc::SEL, 0);
+  }
   int ncol0 = db->getColumnNumber();
   std::unique_ptr<Model> model = buildModel(c.ndim, 1, c.strucs, {}, -1);
   int err = gibbs_sampler(db.get(), model.get(), c.nbsimu, seed, c.nburn, c.niter, c.moving != 0, c.norm != 0, c.multiMono != 0, false,
@@ -1053,6 +1069,12 @@ static double kappaGibbs(const GibbsCase& c)
     db->addColumns(x, "x" + std::to_string(d + 1), ELoc::X, d);
   }
   db->addColumns(VectorDouble((size_t)n, 0.), "z", ELoc::Z, 0);
+  if (!c.sel.empty())
+  {
+    VectorDouble sv((size_t)n);
+    for (int i = 0; i < n; i++) sv[(size_t)i] = c.sel[(size_t)i] ? 1. : 0.;
+    db->addColumns(sv, "sel", ELoc::SEL, 0);
+  }
   std::unique_ptr<Model> model = buildModel(c.ndim, 1, c.strucs, {}, -1);
   MatrixSquareSymmetric C = model->evalCovMatrixSymmetric(db.get());
   int m = C.getNRows();
@@ -1074,7 +1096,7 @@ static void runGibbs(const GibbsCase& c, Ctx& ctx)
   ctx.label(c.nburn == 0 ? "nburn:0" : "nburn:>0");
   ctx.label(fmt("ndim:%d", c.ndim));
   Cols a, b, o;
-  ctx.at("gibbs_sampler:first");
+  ctx.at(fmt("gibbs_sampler:first:moving%d:multimono%d:%s", c.moving, c.multiMono, c.sel.empty() ? "nosel" : "sel"));
   int e1 = callGibbs(c, c.seed, a);
   ctx.at("gibbs_sampler:second");
   int e2 = callGibbs(c, c.seed, b);
@@ -1090,6 +1112,7 @@ static void runGibbs(const GibbsCase& c, Ctx& ctx)
   for (int s = 0; s < c.nbsimu; s++)
     for (int i = 0; i < n; i++)
     {
+      if (!c.active(i)) continue; // masked samples: nothing is claimed here (C05)
       double y = a[(size_t)s][(size_t)i], lo = c.lo[(size_t)i], up = c.up[(size_t)i];
       bool hasLo = !isNA(lo), hasUp = !isNA(up);
       if (hasLo && hasUp && up > lo) bounded = true;
@@ -1114,7 +1137,7 @@ static void runGibbs(const GibbsCase& c, Ctx& ctx)
   if (freeSample && !c.moving)
   {
     std::vector<int> rows;
-    for (int i = 0; i < n; i++) if (!(!isNA(c.lo[(size_t)i]) && c.lo[(size_t)i] == c.up[(size_t)i])) rows.push_back(i);
+    for (int i = 0; i < n; i++) if (c.active(i) && !(!isNA(c.lo[(size_t)i]) && c.lo[(size_t)i] == c.up[(size_t)i])) rows.push_back(i);
     ctx.at("gibbs_sampler:seed2");
     int e3 = callGibbs(c, c.seed2, o);
     if (e3 != 0) { ctx.fail("repro:gibbs:status", "the status depends on the seed"); return; }
